@@ -1055,3 +1055,54 @@ package regexp2
 //@     invariant RunnerText(r) && r.Runtextpos == old(r.Runtextpos) && r.Runtextpos + distance <= searchStart && len(literal) > 0
 //@     invariant forall p int {mark(p + distance)} :: old(r.Runtextpos) <= p && p + distance < searchStart && p <= Latest(r) ==> !helpers.OccursAt(r.Runtext, p + distance, literal)
 //@     decreases len(r.Runtext) - searchStart + 1
+
+//@ func indexOfAnyRunes(input []rune, find []rune) (r int)
+//@   props C03 C10
+//@   ensures -1 <= r && r < len(input)
+//@   ensures r >= 0 ==> helpers.InRunes(find, input[r])
+//@   ensures forall p int :: 0 <= p && p < len(input) && (r < 0 || p < r) ==> !helpers.InRunes(find, input[p])
+
+// ---- required-landmark chain (C10: index safety; the chain's completeness is not claimed, see DESIGN §10.4) ----
+//@ spec func AltOK(a syntax.RequiredLandmarkAlternative) bool = allocated(a.Set) && allocated(a.LeadingWhitespaceSet) && allocated(a.TrailingWhitespaceSet) && (a.Set != nil ==> syntax.SetOK(a.Set)) && (a.LeadingWhitespaceSet != nil ==> syntax.SetOK(a.LeadingWhitespaceSet)) && (a.TrailingWhitespaceSet != nil ==> syntax.SetOK(a.TrailingWhitespaceSet))
+
+//@ func requiredLandmarkAlternativeMatch(input []rune, start int, endAt int, alt syntax.RequiredLandmarkAlternative) (m requiredLandmarkMatch, ok bool)
+//@   props C10 C03
+//@   requires 0 <= start && start <= endAt && endAt <= len(input) && AltOK(alt)
+//@   ensures[shape] ok ==> 0 <= m.Start && m.Start <= m.CoreStart && m.CoreStart == start && start <= m.End && m.End <= endAt
+//@   ensures[core]  ok ==> m.End > start
+//@   loop 0:
+//@     invariant start <= end && end <= endAt && end - start <= maxRepeat && maxRepeat > 0
+//@     decreases endAt - end
+//@   loop 1:
+//@     invariant 0 <= matchStart && matchStart <= start
+//@     decreases matchStart
+
+//@ spec func LandmarkOK(l syntax.RequiredLandmark) bool = forall k int :: 0 <= k && k < len(l.Alternatives) ==> AltOK(l.Alternatives[k])
+//@ func findNextRequiredLandmarkRunes(input []rune, startAt int, endAt int, landmark syntax.RequiredLandmark) (m requiredLandmarkMatch, ok bool)
+//@   props C10 C03
+//@   requires 0 <= startAt && endAt <= len(input) && LandmarkOK(landmark)
+//@   ensures[shape] ok ==> 0 <= m.Start && m.Start <= m.CoreStart && startAt <= m.CoreStart && m.CoreStart < m.End && m.End <= endAt
+//@   loop 0:
+//@     invariant startAt <= i
+//@     decreases endAt - i
+//@   loop 1:
+//@     invariant startAt <= i && i < endAt && -1 <= rangeindex && rangeindex < len(landmark.Alternatives)
+//@     decreases len(landmark.Alternatives) - rangeindex
+
+//@ spec func ChainOK(c *syntax.RequiredLandmarkChain) bool = c != nil ==> (c.LeadingLoopSet != nil ==> syntax.SetOK(c.LeadingLoopSet)) && forall k int :: 0 <= k && k < len(c.Landmarks) ==> LandmarkOK(c.Landmarks[k])
+//@ func findRequiredLandmarkChainLeftToRight(r *Runner, chain *syntax.RequiredLandmarkChain) (b bool)
+//@   props C10 C03
+//@   requires RunnerText(r) && ChainOK(chain)
+//@   modifies r.Runtextpos
+//@   ensures[hit]  b ==> old(r.Runtextpos) <= r.Runtextpos && r.Runtextpos <= Latest(r)
+//@   ensures[miss] !b && chain != nil && chain.LeadingLoopSet != nil && len(chain.Landmarks) > 0 ==> r.Runtextpos == r.Runtextend
+//@   loop 0:
+//@     invariant RunnerText(r) && r.Runtextpos == old(r.Runtextpos) && r.Runtextpos <= searchStart && chain != nil && chain.LeadingLoopSet != nil && len(chain.Landmarks) > 0
+//@     decreases len(r.Runtext) - searchStart + 1
+//@   loop 1:
+//@     invariant RunnerText(r) && r.Runtextpos == old(r.Runtextpos) && r.Runtextpos <= searchStart && searchStart <= Latest(r) && chain != nil && chain.LeadingLoopSet != nil && 1 <= i && i <= len(chain.Landmarks)
+//@     invariant 0 <= first.Start && first.Start <= first.CoreStart && searchStart <= first.CoreStart && first.CoreStart < first.End && first.End <= r.Runtextend && 0 <= nextStart && nextStart <= r.Runtextend
+//@     decreases len(chain.Landmarks) - i
+//@   loop 2:
+//@     invariant RunnerText(r) && r.Runtextpos == old(r.Runtextpos) && r.Runtextpos <= candidate && candidate <= len(r.Runtext) && r.Runtextpos <= searchStart && searchStart <= first.CoreStart && first.CoreStart < r.Runtextend && chain != nil && chain.LeadingLoopSet != nil && len(chain.Landmarks) > 0
+//@     decreases candidate
